@@ -127,6 +127,10 @@ func build(root string, tree []entry, fl flags) map[string]string {
 			put(j("epoch.templ"), strings.Replace(ok1Src, "Ok1", "Epoch", 1), time.Unix(0, 0))
 		case "pre-epoch.templ":
 			put(j("preepoch.templ"), strings.Replace(ok1Src, "Ok1", "PreEpoch", 1), time.Unix(-86400*365, 0))
+		case "ok1_extra_templ.go", "ok1-x_templ.go", "ok_templ.go", "ok1.templ_templ.go", "ok1_templ_templ.go":
+			// generated files without a template whose names are related to ok1.templ's (longer, shorter, sorted
+			// directly before or after it): orphans like any other
+			put(j(e.kind), staleGo, t0)
 		case "other.go":
 			put(j("other.go"), otherGo, t0)
 		case "notes.txt":
@@ -423,6 +427,16 @@ func treesAndConfigs(thorough bool) ([][]entry, []cfg) {
 				trees = append(trees, []entry{{"ok1.templ", d}, {gen, d}, {third, d}})
 				trees = append(trees, []entry{{"ok1.templ", d}, {gen, d}, {third, "a"}})
 			}
+		}
+	}
+	// orphans whose names (or directories) begin like a template next to them; directory names that look like file names
+	for _, d := range []string{"", "a", "a/b", "vendor"} {
+		for _, k := range []string{"ok1_extra_templ.go", "ok1-x_templ.go", "ok_templ.go", "ok1.templ_templ.go", "ok1_templ_templ.go"} {
+			trees = append(trees, []entry{{k, d}}, []entry{{"ok1.templ", d}, {k, d}}, []entry{{"ok1.templ", d}, {k, d}, {"ok2.templ", d}}, []entry{{"ok1.templ", d}, {"ok1_templ.go(stale)", d}, {k, d}})
+		}
+		for _, sub := range []string{"ok1.d", "ok1", "ok1_templ.go.d", "ok1.templ.d"} {
+			sd := filepath.Join(d, sub)
+			trees = append(trees, []entry{{"ok1.templ", d}, {"orphan_templ.go", sd}}, []entry{{"ok1.templ", d}, {"ok1_templ.go(stale)", sd}}, []entry{{"ok1.templ", d}, {"ok2.templ", sd}, {"ok1_extra_templ.go", sd}})
 		}
 	}
 	for _, d := range []string{"", "a", "vendor"} {
